@@ -491,6 +491,8 @@ def conv_session(v: Verdict, name: str, flags: dict, n_worlds: int, profile: dic
                             oracle_c02(v, w, conv2, cfg2, fb2, t, u, sres)
                         if "C06" in oracles and not fb2:
                             oracle_c06_struct(v, w, cfg2, t, u, sres)
+                        if "C04" in oracles:
+                            oracle_c04(v, w, get_conv, cfg2, fb2, t, u, sres, S.hist)
                     # corrupted payloads and junk
                     for j in range(3):
                         if j < 2:
@@ -510,6 +512,8 @@ def conv_session(v: Verdict, name: str, flags: dict, n_worlds: int, profile: dic
                             oracle_c02(v, w, conv, cfg, forbid, t, o, sres)
                         if "C06" in oracles and not forbid:
                             oracle_c06_struct(v, w, cfg, t, o, sres)
+                        if "C04" in oracles:
+                            oracle_c04(v, w, get_conv, cfg, forbid, t, o, sres, S.hist)
                 if "C06" in oracles:
                     oracle_c06_unstruct(v, w, t, x, outs)
         S.close_world(w, tables, cases)
@@ -654,6 +658,58 @@ def oracle_c06_struct(v, w, cfg, t, o, sres):
                     rp(w, cfg, False, t, o, sres, "C06", other=repr(ores[1])[:300]))
 
 
+def td_nonmapping(w, t, o, depth=0) -> bool:
+    """Is there a TypedDict position holding something that is not a dict? (finding F11's shape)"""
+    if depth > 25:
+        return False
+    k = t[0]
+    if k in ("newtype",):
+        return td_nonmapping(w, t[2], o, depth)
+    if k in ("annot", "opt"):
+        return o is not None and td_nonmapping(w, t[1], o, depth)
+    if k in ("list", "tuphom", "set", "fset", "deque"):
+        try:
+            return any(td_nonmapping(w, t[1], e, depth + 1) for e in o)
+        except TypeError:
+            return False
+    if k == "tuple":
+        try:
+            return any(td_nonmapping(w, tt, e, depth + 1) for tt, e in zip(t[1], o))
+        except TypeError:
+            return False
+    if k in ("dict", "defaultdict") and isinstance(o, dict):
+        return any(td_nonmapping(w, t[2], e, depth + 1) for e in o.values())
+    if k in ("class", "self"):
+        spec = w.specs[t[1]]
+        if spec.kind == "td":
+            if type(o) is not dict:
+                return True
+        if isinstance(o, dict):
+            return any(f.type is not None and f.name in o and td_nonmapping(w, f.type, o[f.name], depth + 1) for f in spec.fields)
+        if type(o) in (list, tuple):
+            return any(f.type is not None and td_nonmapping(w, f.type, e, depth + 1) for f, e in zip(spec.fields, o))
+    return False
+
+
+def oracle_c04(v, w, get_conv, cfg, forbid, t, o, sres, hist):
+    """The same converter class and options with the other validation mode: same acceptance, deeply equal result."""
+    full, dv, strat = cfg
+    other = (full, not dv, strat)
+    try:
+        ores = L.run_structure(get_conv(other, forbid), w, o, t)
+    except RecursionError:
+        return
+    hist["mode_pairs"] = hist.get("mode_pairs", 0) + 1
+    rpt = lambda r: repr(r[1])[:300] if r[0] == "ok" else f"raises {type(r[2]).__name__}: {str(r[2])[:160]}"
+    if (sres[0] == "ok") != (ores[0] == "ok"):
+        if w._mentions_td(t) and td_nonmapping(w, t, o):
+            v.finding("F11", "fast-mode TypedDict hook accepts a non-mapping payload that detailed validation rejects", rp(w, cfg, forbid, t, o, sres, "C04", other_mode=rpt(ores)))
+        else:
+            v.violation("detailed_validation changes acceptance", rp(w, cfg, forbid, t, o, sres, "C04", other_mode=rpt(ores)))
+    elif sres[0] == "ok" and not deep_same(sres[1], ores[1]):
+        v.violation("detailed_validation changes the result", rp(w, cfg, forbid, t, o, sres, "C04", other_mode=rpt(ores)))
+
+
 def listify(u):
     if type(u) in (list, tuple):
         return [listify(x) for x in u]
@@ -691,6 +747,8 @@ def flags_of(t1_summary):
 
 def check_conv(v: Verdict, prop: str, t1_summary, n_worlds: int):
     profile = dict(P_ALL if prop in ("C02",) else P_SUPPORTED)
+    if prop == "C04":
+        profile = dict(P_ALL, ext_types=True, typeddicts=0.15)
     if prop == "C03":
         profile["any_structured"] = True
         profile["any_tuples"] = True
